@@ -54,8 +54,8 @@ def run(tier, seed):
         c.broken_correspondence("harness-build", None, V.tail(hlog, 40))
         return c.finish(RULE)
     quick = tier == "quick"
-    # A: implementation-only oracles
-    st = oracle(c, seed, 9000 if quick else 400000, tier)
+    # A: implementation-only oracles (the harness runs the cases in child processes)
+    st = oracle(c, seed, 9000 if quick else 300000, tier)
     if st:
         stats["oracle"] = dict(cases=st.get("cases"), failing=st.get("oracle_failing_cases"), family_hits=st.get("family_hits"),
                                distribution=st.get("distribution"))
@@ -64,7 +64,7 @@ def run(tier, seed):
     if exe_m is None:
         c.broken_correspondence("model-extraction", None, V.tail(mlog, 40))
         return c.finish(RULE, extra_cov=dict(streams=stats))
-    for stream, n in (("nat", 20000 if quick else 1000000), ("heap", 30000 if quick else 2000000)):
+    for stream, n in (("nat", 20000 if quick else 500000), ("heap", 30000 if quick else 600000)):
         rc, out, cases, st = V.run_harness("c02", stream, seed, n, tier, name="c02" + stream)
         if rc != 0:
             c.broken_correspondence("harness-run:" + stream, None, V.tail(out, 40))
